@@ -8,4 +8,5 @@ fn main() {
     support::init();
     generated::run_all();
     support::flush();
+    generated::needs_drop_report();
 }
